@@ -494,6 +494,41 @@ fn quant_ranks(case: &Value) -> Value {
     ev
 }
 
+/// limbs (base 2^15, least significant first) of an index beyond the 32-bit integers of the validator
+fn limbs(mut x: u128) -> Value {
+    let mut v = Vec::new();
+    while x > 0 { v.push((x & 0x7fff) as u64); x >>= 15; }
+    json!(v)
+}
+fn ok_usize_big(r: Result<Interval<usize>, CIError>) -> Value {
+    match r {
+        Ok(Interval::TwoSided(a, b)) => json!({"tag": "ok", "iv": {"kind": "two", "lo": limbs(a as u128), "hi": limbs(b as u128)}}),
+        Ok(Interval::UpperOneSided(a)) => json!({"tag": "ok", "iv": {"kind": "upper", "lo": limbs(a as u128)}}),
+        Ok(Interval::LowerOneSided(b)) => json!({"tag": "ok", "iv": {"kind": "lower", "hi": limbs(b as u128)}}),
+        Err(e) => err_json(&e),
+    }
+}
+
+/// rank-level entry points for a population a * 2^p far beyond 2^32 (no data can be that long: index-only paths)
+fn quant_big(case: &Value) -> Value {
+    let a = case["nbig"]["a"].as_u64().unwrap() as u128;
+    let p = case["nbig"]["p"].as_u64().unwrap() as u32;
+    let n = (a << p) as usize;
+    let q = enc::dec_f64(&case["q"]);
+    let mut ev = case.clone();
+    let conf = match catch_unwind(|| mk_conf(&case["conf"])) {
+        Ok(c) => c,
+        Err(_) => { ev["out"] = json!({"tag": "panic", "msg": "confidence"}); return ev; }
+    };
+    ev["confv"] = crate::conf::enc_conf(&conf);
+    ev["nlimbs"] = limbs(n as u128);
+    ev["out"] = guard(|| ok_usize_big(quantile::ci_indices(conf, n, q)));
+    ev["out_stats"] = guard(|| ok_usize_big(quantile::Stats::new(n).ci(conf, q)));
+    // the same population reached by merging two running states
+    ev["out_merged"] = guard(|| ok_usize_big((quantile::Stats::new(n / 2) + quantile::Stats::new(n - n / 2)).ci(conf, q)));
+    ev
+}
+
 fn quant_index(case: &Value) -> Value {
     let n = case["n"].as_u64().unwrap() as usize;
     let q = enc::dec_f64(&case["q"]);
@@ -612,6 +647,7 @@ pub fn run(case: &Value) -> Vec<Value> {
         "prop.sig" => prop_sig(case),
         "prop.stats_new" => prop_stats_new(case),
         "quant.ranks" => quant_ranks(case),
+        "quant.big" => quant_big(case),
         "quant.index" => quant_index(case),
         "quant.data" => quant_data(case),
         _ => json!({"op": "harness.unknown", "case": case}),
